@@ -99,6 +99,11 @@ func checkPosaSync(c *core.Ctx, pkg, typ string, full bool) {
 						return true, false
 					}
 				}
+				if b.Op == token.LEQ && lastSeen(b.X) { // the same test written from the other side
+					if k, okk := ir.ConstInt(b.Y); okk && k == 0 {
+						return true, true
+					}
+				}
 				if b.Op == token.LEQ {
 					if add, isAdd := b.Y.(*ssa.BinOp); isAdd && add.Op == token.ADD && lastSeen(add.X) {
 						return true, false
